@@ -291,6 +291,18 @@ CASES["regress/KF-C07-4b.json"] = http_case("panic", _b, _ct)
 _b, _ct = multipart([("operations", _ops1), ("map", '{"0":["variables.files.-1"]}')], [("0", "a.txt", b"x")])
 CASES["regress/KF-C07-4c.json"] = http_case("panic", _b, _ct)
 
+def fault_case(sig, query, faults, variables=None, w=None, bystander=False, config=None):
+    c = exec_case("C09", sig, query, variables, w=w, config=config)
+    c["case"]["faults"] = faults
+    if bystander:
+        c["case"]["bystander"] = {"query": "{ __schema { queryType { name } } }"}
+    return c
+
+S0, S1 = "http://svc-0.test/graphql", "http://svc-1.test/graphql"
+CASES["regress/KF-C09-1.json"] = fault_case("process-death", "{ getHumans { name phone } }", [{"url": S0, "query": "", "occurrence": 0, "pos": 0, "kind": "array-longer"}])
+CASES["regress/KF-C09-1b.json"] = fault_case("masked", "{ getHumans { name phone } }", [{"url": S1, "query": "", "occurrence": 0, "pos": 0, "kind": "array-shorter"}])
+CASES["regress/KF-C09-2.json"] = fault_case("masked", "{ getHumans { name } }", [{"url": S0, "query": "", "occurrence": 0, "pos": 0, "kind": "data-missing"}])
+
 if __name__ == "__main__":
     import sys
     sys.path.insert(0, os.path.dirname(os.path.abspath(__file__)))
